@@ -1,6 +1,7 @@
 -- GENERATED. Tables the translator could not find where it expected them.
 namespace Dippy.Generated
 
-def missingTables : List String := []
+def missingTables : List String := [
+  "wrapper DURATION test"]
 
 end Dippy.Generated
